@@ -316,3 +316,35 @@ claim("C19",
            "outside the model. Five defects found here were repaired in /repo (F18 F19 F47 F48 F49).",
       technique="Lean 4 proof over a state-machine model + scripted stand-in processor + differential correspondence",
       design_ref="DESIGN.md §5 C19")
+
+claim("C13",
+      text="Proved for the Lean model of delphin.repp (16 theorems), for every template, match list, program and input: the string "
+           "built by the offset-tracking loop of _REPPRule._apply/_process_match equals ordered regex substitution (no hypothesis "
+           "on the template: groups in any order, repeated, unmatched optional groups, escapes); the tracked/untracked split "
+           "loses nothing of the template; groups, iterative groups reach a fixpoint of their body exactly when one is reached "
+           "after finitely many rounds (fuel irrelevance), external groups apply only when active, include splicing, a module "
+           "with no applicable rule returns its input; the trace is a chain whose last element equals apply; a mask rule by "
+           "itself changes neither string nor maps.",
+      note="The regex engine is a parameter of the model: the harness ships the match lists returned by the rule's own compiled "
+           "pattern (validity — ordered, non-overlapping, inside the string — checked on every list). Compared on generated "
+           "cases: model vs delphin.repp on all verbose trace steps; direct oracle re.sub in order with iteration until "
+           "unchanged. stdlib re instead of regex; all-zero mask state; _parse_repp_module and mask blocking (_check_mask) are "
+           "covered by the oracle only; non-terminating iterative groups (length-increasing rules) are excluded; strings capped "
+           "at 160 characters.",
+      technique="Lean 4 proof over executable model (regex engine as parameter) + differential correspondence + re.sub oracle",
+      design_ref="DESIGN.md §5 C13")
+
+claim("C14",
+      text="Proved at full strength for the repaired code (13 theorems; no coverage hypothesis): both offset maps have one entry per "
+           "output position plus two sentinels for rules, groups and after _mergemap; every carried-over character — outside all "
+           "matches or through participating capture groups referenced in order — is attributed exactly to its original position "
+           "by _process_match's accounting and through _mergemap composition for whole programs; every span lies within the "
+           "original; the merge never raises; tokens are exactly the non-empty separator-free pieces in order; a token of "
+           "contiguous carried-over characters satisfies original[from:to] == form; the YY lattice string round-trips for "
+           "arbitrary form and surface text (incl. quotes and backslashes).",
+      note="As for C13 (regex engine and tokenizer matches are parameters shipped from the real compiled patterns). Compared: "
+           "startmap, endmap, tokens, lattice string and re-parse against the real code; an independent character-by-character "
+           "provenance oracle composed through the whole program. The YY parser model covers lrules = ['null'] and no pos tags; "
+           "provenance through groups is claimed only for in-order templates (the characterizable case of the property).",
+      technique="Lean 4 proof over executable model (regex engine as parameter) + differential correspondence + provenance oracle",
+      design_ref="DESIGN.md §5 C14")
